@@ -25,6 +25,7 @@ use crate::{
             get_prototype_from_constructor, ordinary_define_own_property,
             ordinary_get_own_property,
         },
+        shape::slot::SlotAttributes,
     },
     property::{Attribute, PropertyDescriptor, PropertyKey, PropertyNameKind},
     realm::Realm,
@@ -3463,6 +3464,9 @@ fn array_exotic_define_own_property(
         PropertyKey::String(s) if s == &StaticJsStrings::LENGTH => {
             // a. Return ? ArraySetLength(A, Desc).
 
+            // A store to "length" must always go through `ArraySetLength`,
+            // so it cannot be replaced by a cached write to the slot.
+            context.slot().attributes |= SlotAttributes::NOT_CACHEABLE;
             array_set_length(obj, desc, context)
         }
         // 3. Else if P is an array index, then
